@@ -1,11 +1,12 @@
 import RoaringModel.Bitmap
 import RoaringModel.Spec
 import RoaringModel.Fmt
+import RoaringModel.Lemmas.MiscFmt
 /-!
 # C16 — public operations are total: only the documented panics (property theorems)
 -/
 namespace Roaring.C16
-open Roaring
+open Roaring Roaring.MiscLemmas
 
 /-- Empty, inverted and equal-excluded ranges are the empty set for the four range operations, and the
     bitmap is left unchanged — for every bitmap (no well-formedness needed) and every bound pair that
@@ -76,5 +77,48 @@ theorem C16_convertRange_nonempty (maxV : Nat) (lo hi : Bound) (hlo : Bound.fits
 
 /-- Non-vacuity: 7 lies in `(Excluded 3, Excluded 8)`. -/
 example : Spec.Bound.mem (.excl 3) (.excl 8) 7 := by decide
+
+/-- `Debug` formatting is total: for a well-formed bitmap neither `unwrap()` of `fmt.rs` can fail
+    (`min()` / `max()` are `Some` whenever the summary branch `len() >= 16` is taken); for fewer than 16
+    values the list branch has no partial operation at all. -/
+theorem C16_debug_total (b : Bitmap) (h : BitmapWF b) : (Bitmap.debugFmt b).isSome = true := by
+  unfold Bitmap.debugFmt
+  split
+  · rfl
+  · rename_i hlen
+    cases b with
+    | nil => simp [Bitmap.len] at hlen
+    | cons c cs =>
+      have hmin : (Bitmap.min? (c :: cs)).isSome = true := by
+        have := (store_minmax_isSome c.store (h.2 c (by simp)).2).1
+        simp only [Bitmap.min?, List.head?_cons, Container.min?]
+        cases hm : c.store.min? with
+        | none => rw [hm] at this; simp at this
+        | some v => rfl
+      have hmax : (Bitmap.max? (c :: cs)).isSome = true := by
+        cases hl : (c :: cs).getLast? with
+        | none => simp at hl
+        | some c' =>
+          have hmem : c' ∈ c :: cs := List.mem_of_getLast? hl
+          have := (store_minmax_isSome c'.store (h.2 c' hmem).2).2
+          simp only [Bitmap.max?, hl, Container.max?]
+          cases hm : c'.store.max? with
+          | none => rw [hm] at this; simp at this
+          | some v => rfl
+      cases h1 : Bitmap.min? (c :: cs) with
+      | none => rw [h1] at hmin; simp at hmin
+      | some lo =>
+        cases h2 : Bitmap.max? (c :: cs) with
+        | none => rw [h2] at hmax; simp at hmax
+        | some hi => rfl
+
+/-- Non-vacuity: a well-formed 17-element bitmap takes the summary branch. -/
+example : BitmapWF [⟨0, .array (List.range 17)⟩] ∧
+    Bitmap.debugFmt [⟨0, .array (List.range 17)⟩] = some "RoaringBitmap<17 values between 0 and 16>" := by
+  refine ⟨⟨by decide, ?_⟩, by decide⟩
+  intro c hc
+  simp at hc
+  subst hc
+  exact ⟨by decide, by decide, by decide, by decide⟩
 
 end Roaring.C16
